@@ -38,11 +38,13 @@ KF_C13(c) ==
 
 \* C15 "pad-blank-line": with pad_block_width a blank line inside <pre> is padded with spaces, counts
 \* as content for start_block, and the next block is preceded by one more empty line than without
-\* padding.  Class: option = pad, both runs Ok, equal after dropping blank lines, both as predicted.
+\* padding.  Class: option = pad, both runs Ok, equal after dropping the lines that hold no text
+\* (blank lines, possibly behind a block prefix), both as predicted.
 KF_C15(c) ==
   IF /\ "opt" \in DOMAIN c.meta /\ c.meta.opt = "pad"
      /\ c.runs[1].res.k = "ok" /\ c.runs[2].res.k = "ok"
-     /\ LET nb(res) == SelectSeq([i \in 1..Len(res.lines) |-> RStripCodes(LineCodes(res)[i])], LAMBDA x : x # <<>>)
+     /\ LET nb(res) == SelectSeq([i \in 1..Len(res.lines) |-> RStripCodes(LineCodes(res)[i])],
+                                  LAMBDA x : \E j \in 1..Len(x) : IsLetterCode(x[j]))      \* lines that hold text
         IN nb(c.runs[1].res) = nb(c.runs[2].res)
      /\ ModelAgrees(c, c.runs[1]) /\ ModelAgrees(c, c.runs[2])
   THEN "pad-blank-line" ELSE ""
